@@ -39,6 +39,9 @@ def check(run):
         run.guard("C15.via.C03.4.unsupported-schemes", cfg, lambda: _C03.rule_unsupported(b5, F, cfg))
         b6 = run.borrow("C03", only=r"string-payloads-verbatim", why="the injected policy is the directive as written in the rule")
         run.guard("C15.via.C03.1.option-chain/payloads", cfg, lambda: _C03.rule_payloads(b6, F, cfg))
+        from . import C04 as _C04
+        b7 = run.borrow("C04", only=r"csp|cancelled|loop-runs", why="csp rules and their $badfilter cancellation go through the common routing")
+        run.guard("C15.via.C04.1.routing", cfg, lambda: _C04.rule_routing(b7, F, cfg))
         run.guard("C15.via.C03.1.option-chain", cfg, lambda: (_C03.rule_chain(b4, F, cfg), _C03.rule_polarity(b4, F, cfg)))
 
 
